@@ -4,7 +4,8 @@
    field is base + offset per the CURRENT tables.  Also: the bridge from C06's burst model (Model/SCP.v) to the
    execution / callback orders of Model/MemOps.v.  Definitions only. *)
 From Coq Require Import ZArith List Bool String.
-Require Import Rig.Generated.GenMemOps Rig.Generated.GenSCP Rig.Model.Base Rig.Model.Machine Rig.Model.MemOps.
+Require Import Rig.Generated.GenMemOps Rig.Generated.GenSCP Rig.Model.Base Rig.Model.Machine Rig.Model.MemOps
+  Rig.Spec.MemOps.
 Require Rig.Model.SCP.
 Import ListNotations.
 Open Scope Z_scope.
@@ -96,17 +97,79 @@ Definition callback_ids (tr : list SCP.output) : list Z :=
 Definition order_of {A} (cs : list A) (tr : list SCP.output) : list A :=
   flat_map (fun c => match nth_error cs (Z.to_nat c) with Some x => [x] | None => [] end) (callback_ids tr).
 
-(* SCPConnection.read over a burst: the exception of the burst propagates (Failed rc_timeout: TimeoutError,
-   Failed rc: FatalReturnCodeError, OtherError: the constructor's KeyError; OutOfFuel: the modelled run did not
-   end) -- `return bytes(data)` is only reached when the burst returned *)
-Definition sc_read_burst (cf : SCP.config) (evs : list SCP.event) (k : SCP.conn)
+(* Which reply does a callback get?  The datagram d handed to the callback of command c names the transmission
+   that caused it (d_src d; C06's `causal`); the command that transmission carried OWNS the reply: the machine
+   answered THAT command.  [owner_of hist tx] is the command of transmission tx in the history of the connection. *)
+Fixpoint owner_of (hist : list SCP.output) (tx : Z) : option Z :=
+  match hist with
+  | [] => None
+  | SCP.OSend tx' c _ _ :: rest => if tx' =? tx then Some c else owner_of rest tx
+  | _ :: rest => owner_of rest tx
+  end.
+
+Definition callbacks (tr : list SCP.output) : list (Z * SCP.dgram) :=
+  flat_map (fun o => match o with SCP.OCallback c d => [(c, d)] | _ => [] end) tr.
+
+(* every callback of tr received the reply to its own command.  C06 proves this of send_scp_burst under `causal`
+   and `fresh` (C06_reply_matches: the datagram was caused by a transmission of c) and REFUTES it without `fresh`
+   (C06_reply_matches_without_fresh_refuted: a duplicate delivered after its 16-bit sequence number has come round
+   completes a later command) *)
+Definition own_replies (hist tr : list SCP.output) : bool :=
+  forallb (fun cd => match owner_of hist (SCP.d_src (snd cd)) with
+                     | Some c' => c' =? fst cd
+                     | None => false
+                     end) (callbacks tr).
+
+(* (chunk whose callback runs, chunk whose reply it is handed), in the order of the callbacks *)
+Definition served {A} (cs : list A) (hist tr : list SCP.output) : list (A * A) :=
+  flat_map (fun cd =>
+              match nth_error cs (Z.to_nat (fst cd)), owner_of hist (SCP.d_src (snd cd)) with
+              | Some x, Some c' => match nth_error cs (Z.to_nat c') with Some y => [(x, y)] | None => [] end
+              | _, _ => []
+              end) (callbacks tr).
+
+(* the callbacks run one after the other: the callback of chunk [fst] writes, into ITS slice of the buffer, the
+   payload of the reply to the command of chunk [snd] *)
+Fixpoint read_run_served (E : env) (M : machine) (c : chip) (core : Z) (pairs : list (rchunk * rchunk))
+  (buf : list Z) : result (list request * list Z) :=
+  match pairs with
+  | [] => Ok ([], buf)
+  | (slot, payload) :: rest =>
+      bind (issue E M c core (rk_call payload)) (fun '(M', r, d) =>
+      bind (splice buf (rk_lo slot) (rk_hi slot) d) (fun buf' =>
+      bind (read_run_served E M' c core rest buf') (fun '(tr, out) => Ok (r :: tr, out))))
+  end.
+
+(* SCPConnection.read over a burst, [past] being what happened on the connection before: the exception of the
+   burst propagates (Failed rc_timeout: TimeoutError, Failed rc: FatalReturnCodeError, OtherError: the constructor's
+   KeyError; OutOfFuel: the modelled run did not end) -- `return bytes(data)` is only reached when the burst
+   returned; each callback splices the reply it was actually handed *)
+Definition sc_read_burst (cf : SCP.config) (evs : list SCP.event) (k : SCP.conn) (past : list SCP.output)
   (E : env) (M : machine) (c : chip) (core address length : Z) : result (list request * list Z) :=
   if length <? 0 then OtherError
   else bind (read_chunks address length (e_buffer E)) (fun cs =>
     match SCP.burst cf (burst_cmds (List.length cs)) evs k with
-    | (tr, SCP.Returned, _, _) => read_run E M c core (order_of cs tr) (repeat 0 (Z.to_nat length))
+    | (tr, SCP.Returned, _, _) =>
+        read_run_served E M c core (served cs (past ++ tr) tr) (repeat 0 (Z.to_nat length))
     | (_, SCP.RaisedTimeout _, _, _) => Failed rc_timeout
     | (_, SCP.RaisedFatal rc _, _, _) => Failed rc
     | (_, SCP.RaisedKeyError _, _, _) => OtherError
     | (_, _, _, _) => OutOfFuel
     end).
+
+(* ---- predicates the theorems of Props/C07.v are stated with ---- *)
+Definition sfile_ok (S : sfile) : Prop :=
+  (forall name off n, field_find name (sf_sv S) = Some (off, n) ->
+     0 <= sf_sv_base S + off /\ 0 <= n /\ sf_sv_base S + off + n <= 2 ^ 32) /\
+  (forall name off n, field_find name (sf_vcpu S) = Some (off, n) -> 0 <= off /\ 0 <= n).
+
+(* the address of a per-core field per the CURRENT tables: the word stored in the current sv.vcpu_base +
+   current block size * core + current field offset *)
+Definition st_vcpu_addr (S : sfile) (vboff : Z) (M : machine) (c : chip) (p off : Z) : Z :=
+  le_word (mem_range (M c) (sf_sv_base S + vboff) 4) + sf_vcpu_size S * p + off.
+
+(* C06's conclusion gives own_replies once transmission numbers name transmissions (C06's model numbers them with
+   the connection's counter k_ntx) *)
+Definition tx_unique (hist : list SCP.output) : Prop :=
+  forall tx c c' s s' t t', In (SCP.OSend tx c s t) hist -> In (SCP.OSend tx c' s' t') hist -> c = c'.
+
